@@ -13,7 +13,17 @@ ROUTER_RULE = ("each evaluation is one simulated world: 1-2 editor sessions on t
                "oracles run after every completed transaction; non-trivial = a reach probe fired; distinct = distinct event-log hash")
 MIX_RULE = ("each evaluation is one simulated world of 1-5 sessions drawn from every engine (router editors in all modes incl. immediate mode, libvpsc/libavoid solvers, "
             "overlap removal, layouts, HOLA graphs) sharing heap, clock, file layer and globals, interleaved at every callback; non-trivial = a reach probe fired; distinct = distinct event-log hash")
+LAYOUT_RULE = ("each evaluation is one simulated world: 1-2 cola::ConstrainedFDLayout sessions (3-12 nodes, compound constraints generated from a hidden witness placement, optional "
+               "contradiction, overlap avoidance, rectangular cluster hierarchy) driven by a simulated user through TestConvergence/PreIteration: stop at any iteration, interrupt at any "
+               "pre-iteration call, locks injected and released mid-run, makeFeasible before/after/without run, runOnce, x-only/y-only; sessions interleave at every callback and share "
+               "heap and the Rectangle border globals; non-trivial = a reach probe fired; distinct = distinct event-log hash")
 PROPS = {
+    "C07": dict(build="plain", runs_quick=30000, budget_quick=40, runs_thorough=600000, budget_thorough=900, rule=LAYOUT_RULE,
+                assumptions=["tolerance 1e-4 on every compound constraint; violated constraints must be in the reported unsatisfiable lists",
+                             "relaxation: interrupted before the first completed iteration without makeFeasible -> only sizes/finiteness (nothing has been projected)"]),
+    "C08": dict(build="plain", runs_quick=30000, budget_quick=40, runs_thorough=600000, budget_thorough=900, rule=LAYOUT_RULE,
+                assumptions=["armed after makeFeasible() followed by at least one completed iteration, nothing reported unsatisfiable",
+                             "user constraints and clusters are generated from a non-overlapping witness grid"]),
     "C15": dict(build="san", runs_quick=4000, budget_quick=50, runs_thorough=150000, budget_thorough=1200, rule=MIX_RULE, timeout_quick=60,
                 assumptions=["ASan+UBSan (recoverable) on all five libraries and the harness, LeakSanitizer check at the end of every run, library assertions as exceptions, watchdog",
                              "allocation failure is not injected (the property is about valid use)",
